@@ -496,7 +496,11 @@ def main(argv=None):
                 'residue_states_sample': sorted(states)[:30],
                 'files': chosen, 'multi_conformation_files': multis,
                 'per_file_exhaustive': exhaustive,
-                'exhaustive': bool(tier['f3'] == 'all'),
+                # F5, F9 and the complete-structure arm are seeded samples, so the
+                # run as a whole is not an exhaustive enumeration
+                'exhaustive': False,
+                'exhaustively_enumerated_families': (['F1', 'F2', 'F4', 'F6', 'F7', 'F8', 'F11']
+                                                     + (['F3', 'F10'] if tier['f3'] == 'all' else [])),
                 'exhaustive_note': ('F1, F2, F4 exhaustive over every record boundary and F6, F7 over every pair of '
                                     'residue boundaries of every listed file'
                                     + ('; F3 exhaustive too' if tier['f3'] == 'all' else '; F3 and F5 sampled')),
